@@ -437,6 +437,9 @@ func (fa *funcAnalysis) checkUnits(kind string, base string, e ast.Expr, at toke
 	if kind == "call" || kind == "lit" {
 		rule = "STRIDE.pair"
 	}
+	if kind == "len" {
+		rule = "STRIDE.len"
+	}
 	fa.res.Add(core.Finding{
 		Rule: rule,
 		Key:  fmt.Sprintf("%s|%s|%s<-%s", rule, fa.name, fa.ownerLabel(base), strings.Join(foreign, ",")),
@@ -464,11 +467,50 @@ func (fa *funcAnalysis) check(body ast.Node) {
 			}
 		case *ast.CallExpr:
 			fa.checkCall(x)
+		case *ast.BinaryExpr:
+			fa.checkLenCompare(x)
 		case *ast.CompositeLit:
 			fa.checkLit(x)
 		}
 		return true
 	})
+}
+
+// checkLenCompare: in a comparison one side of which is built from len(p)
+// of an owned operand p only, the other side (the required extent) may
+// carry only p's own stride unit: `len(y) <= (n-1)*incX` is the length
+// check of y written with x's increment.
+func (fa *funcAnalysis) checkLenCompare(be *ast.BinaryExpr) {
+	switch be.Op {
+	case token.LSS, token.LEQ, token.GTR, token.GEQ, token.EQL, token.NEQ:
+	default:
+		return
+	}
+	lenOwner := func(e ast.Expr) (string, bool) {
+		for {
+			if p, ok := e.(*ast.ParenExpr); ok {
+				e = p.X
+				continue
+			}
+			break
+		}
+		c, ok := e.(*ast.CallExpr)
+		if !ok || len(c.Args) != 1 {
+			return "", false
+		}
+		id, ok := c.Fun.(*ast.Ident)
+		if !ok || id.Name != "len" {
+			return "", false
+		}
+		return fa.baseOwner(rootBase(c.Args[0]))
+	}
+	if k, ok := lenOwner(be.X); ok {
+		fa.res.Count("length_check_comparisons", 1)
+		fa.checkUnits("len", k, be.Y, be.Pos())
+	} else if k, ok := lenOwner(be.Y); ok {
+		fa.res.Count("length_check_comparisons", 1)
+		fa.checkUnits("len", k, be.X, be.Pos())
+	}
 }
 
 func (fa *funcAnalysis) checkCall(c *ast.CallExpr) {
@@ -546,6 +588,7 @@ func Run(cfg core.Config, scope core.Scope) *core.Result {
 	res := core.NewResult("STRIDE")
 	res.Rules = append(res.Rules,
 		"STRIDE.index: every index/slice bound of an operand carries only that operand's own ld/inc/Stride unit",
+		"STRIDE.len: a comparison of len(p) with a required extent uses only p's own ld/inc/Stride",
 		"STRIDE.pair: at every call or struct literal a (slice, stride) pair refers to one operand")
 	res.Configs = append(res.Configs, cfg.String())
 	pkgs, err := core.Load(cfg, patterns...)
